@@ -144,18 +144,36 @@ func secBubbleGoroutines() []string {
 		return nil
 	}
 	label := head[i : j+1] // "synctest bubble N]"
+	// one reusable buffer: a dump lists every goroutine of the process, and runs of a
+	// process are sequential (only the root goroutine of the current run comes here)
+	if len(secStackBuf) == 0 {
+		secStackBuf = make([]byte, 1<<20)
+	}
+	var dump []byte
+	for {
+		n := runtime.Stack(secStackBuf, true)
+		if n < len(secStackBuf) {
+			dump = secStackBuf[:n]
+			break
+		}
+		secStackBuf = make([]byte, 2*len(secStackBuf))
+	}
 	var out []string
-	for _, g := range kernel.BubbleGoroutines() {
+	for _, g := range strings.Split(string(dump), "\n\n") {
 		h := g
 		if nl := strings.IndexByte(h, '\n'); nl >= 0 {
 			h = h[:nl]
 		}
-		if strings.Contains(h, label) {
-			out = append(out, g)
+		if !strings.Contains(h, label) || strings.Contains(h, "[running") || strings.Contains(h, "[synctest.Run") ||
+			strings.Contains(g, "testing/synctest.testingSynctestTest(") {
+			continue // another bubble; the caller; the goroutine that waits for the bubble
 		}
+		out = append(out, g)
 	}
 	return out
 }
+
+var secStackBuf []byte
 
 // secFinish closes what is left of the run and checks that nothing of the driver stays
 // behind. base is runtime.NumGoroutine() at the start of the run. It must be called
@@ -175,14 +193,32 @@ func secFinish(k *kernel.Kernel, cl *node.Cluster, hub *simnet.PipeHub, each fun
 	// ConnectTimeout) + reconnection total + 30 s = 33.01 s here)
 	deadline := time.Now().Add(35 * time.Second)
 	tick := 10 * time.Millisecond
+	driverOnly := func(all []string) (gs []string) {
+		for _, g := range all {
+			if strings.Contains(g, "github.com/gocql/gocql.") || strings.Contains(g, "github.com/gocql/gocql/internal") {
+				gs = append(gs, g)
+			}
+		}
+		return gs
+	}
+	dumped := false
 	for {
 		k.Quiesce()
 		if each != nil {
 			each()
 			k.Quiesce()
 		}
+		// cheap test first; a goroutine dump lists every goroutine of the process,
+		// including those leaked by earlier runs, so it is taken at most twice per run
 		if runtime.NumGoroutine() <= base {
 			return
+		}
+		if !dumped && tick >= time.Second {
+			dumped = true
+			if len(secBubbleGoroutines()) == 0 {
+				k.Probe("sec.goroutine-count-unreliable") // something outside the bubble started a goroutine
+				return
+			}
 		}
 		if time.Now().After(deadline) {
 			break
@@ -193,12 +229,11 @@ func secFinish(k *kernel.Kernel, cl *node.Cluster, hub *simnet.PipeHub, each fun
 		}
 	}
 	all := secBubbleGoroutines()
-	var gs []string
-	for _, g := range all {
-		if strings.Contains(g, "github.com/gocql/gocql.") || strings.Contains(g, "github.com/gocql/gocql/internal") {
-			gs = append(gs, g)
-		}
+	if len(all) == 0 {
+		k.Probe("sec.goroutine-count-unreliable")
+		return
 	}
+	gs := driverOnly(all)
 	if len(gs) == 0 {
 		if k.Violation() == nil {
 			first := "(none of this bubble)"
@@ -229,7 +264,7 @@ var secDumpNoise = regexp.MustCompile(`goroutine [0-9]+|\(0x[0-9a-f]+[^)]*\)| \+
 
 // secCleanDump removes what differs between identical runs from a goroutine dump
 // (goroutine numbers, argument words, pc offsets).
-func secCleanDump(d string) string { return secDumpNoise.ReplaceAllString(d, "") }
+func secCleanDump(d string) string { return strings.TrimSpace(secDumpNoise.ReplaceAllString(d, "")) }
 
 // ---------------------------------------------------------------------------------
 // certificates
@@ -524,8 +559,8 @@ func secTLS(e *Env) {
 		rootSel = tp.Weighted([]int{3, 2, 1})
 	}
 	certKind := tp.Next(5)
-	caSel := tp.Weighted([]int{12, 18, 3, 3, 1, 1, 1, 1, 1, 1})
-	kpSel := tp.Weighted([]int{24, 9, 1, 1, 1, 1, 1, 1, 1})
+	caSel := tp.Weighted([]int{40, 60, 10, 10, 1, 1, 1, 1, 1, 1})
+	kpSel := tp.Weighted([]int{80, 30, 1, 1, 1, 1, 1, 1, 1})
 	hostForm := tp.Next(4)
 	control := tp.Next(2) == 1
 	tls12 := tp.Chance(1, 4)
@@ -588,7 +623,10 @@ func secTLS(e *Env) {
 
 	// ---- certificates and files ----
 	ca1 := secNewCA("simsec CA 1", 1)
-	ca2 := secNewCA("simsec CA 2", 2)
+	ca2 := ca1 // the second CA is made only for the cells that mention it
+	if certKind == 1 || caSel == 2 || caSel == 3 || rootSel == 2 {
+		ca2 = secNewCA("simsec CA 2", 2)
+	}
 	var leaf *secLeaf
 	var leafIPs []net.IP
 	var leafDNS []string
@@ -608,14 +646,24 @@ func secTLS(e *Env) {
 	}
 	leaf = issuer.issue("node", 10, leafIPs, leafDNS, false)
 
-	dir, err := os.MkdirTemp("", "simsec")
-	if err != nil {
-		k.Violate("HARNESS", "sec/tempdir", "cannot create a temporary directory: %v", err)
-		return
+	dir := ""
+	defer func() {
+		if dir != "" {
+			os.RemoveAll(dir)
+		}
+	}()
+	mkdir := func() string {
+		if dir == "" {
+			d, err := os.MkdirTemp("", "simsec")
+			if err != nil {
+				panic(err)
+			}
+			dir = d
+		}
+		return dir
 	}
-	defer os.RemoveAll(dir)
 	write := func(name string, b []byte) string {
-		p := filepath.Join(dir, name)
+		p := filepath.Join(mkdir(), name)
 		if err := os.WriteFile(p, b, 0o600); err != nil {
 			panic(err)
 		}
@@ -630,7 +678,7 @@ func secTLS(e *Env) {
 	case 3:
 		ssl.CaPath = write("ca.pem", append(append([]byte(nil), ca2.pem...), ca1.pem...))
 	case 4:
-		ssl.CaPath = filepath.Join(dir, "no-such-ca.pem")
+		ssl.CaPath = filepath.Join(mkdir(), "no-such-ca.pem")
 	case 5:
 		ssl.CaPath = write("ca.pem", []byte(secGarbageTxt))
 	case 6:
@@ -640,7 +688,7 @@ func secTLS(e *Env) {
 	case 8:
 		ssl.CaPath = write("ca.pem", leaf.keyPEM)
 	case 9:
-		ssl.CaPath = dir
+		ssl.CaPath = mkdir()
 	}
 	if kpSel != 0 {
 		cli := ca1.issue("client", 20, nil, nil, true)
@@ -648,9 +696,9 @@ func secTLS(e *Env) {
 		case 1:
 			ssl.CertPath, ssl.KeyPath = write("client.pem", cli.certPEM), write("client.key", cli.keyPEM)
 		case 2:
-			ssl.CertPath, ssl.KeyPath = filepath.Join(dir, "no-such-client.pem"), write("client.key", cli.keyPEM)
+			ssl.CertPath, ssl.KeyPath = filepath.Join(mkdir(), "no-such-client.pem"), write("client.key", cli.keyPEM)
 		case 3:
-			ssl.CertPath, ssl.KeyPath = write("client.pem", cli.certPEM), filepath.Join(dir, "no-such-client.key")
+			ssl.CertPath, ssl.KeyPath = write("client.pem", cli.certPEM), filepath.Join(mkdir(), "no-such-client.key")
 		case 4:
 			ssl.CertPath, ssl.KeyPath = write("client.pem", []byte(secGarbageTxt)), write("client.key", cli.keyPEM)
 		case 5:
@@ -708,7 +756,7 @@ func secTLS(e *Env) {
 	verify := (!cfgPresent && ehv) || (cfgPresent && !(isv && !ehv))
 	trust1 := caSel == 1 || caSel == 3 || rootSel == 1
 	trust2 := caSel == 2 || caSel == 3 || rootSel == 2
-	chainOK := (issuer == ca1 && trust1) || (issuer == ca2 && trust2)
+	chainOK := (certKind != 1 && trust1) || (certKind == 1 && trust2)
 	nameOK := false
 	switch sn {
 	case 0: // no explicit server name: the host being dialled
@@ -739,7 +787,7 @@ func secTLS(e *Env) {
 	}
 
 	// ---- the node ----
-	srvCfg := &tls.Config{Certificates: []tls.Certificate{leaf.tlsCert}, ClientAuth: tls.RequestClientCert}
+	srvCfg := &tls.Config{Certificates: []tls.Certificate{leaf.tlsCert}, ClientAuth: tls.RequestClientCert, CurvePreferences: []tls.CurveID{tls.X25519}}
 	if tls12 {
 		srvCfg.MaxVersion = tls.VersionTLS12
 	}
